@@ -9,7 +9,9 @@ FINISH = dict(level="fault_enumeration",
                    "printf variants, a 6-operation patch and each operation alone) is failed in turn (thorough: plus a "
                    "random second failure), on the fixed set-up and again after each of H seeded pseudo-random histories of ordinary operations on the caller-owned objects (quick H=5, thorough H=149); a case is non-trivial when the failing request was reached; distinct = "
                    "distinct (workload, variant, history, k, k2); TLC validates each event against the Faults overlay; the "
-                   "micro-step rollback models (Faults.tla) are model-checked for every failing position")
+                   "micro-step rollback models (Faults.tla) are model-checked for every failing position; generated valid / mutated / "
+                   "chunked documents are parsed with each allocation request failing in turn (fault-free outcome, or no value with the "
+                   "out-of-memory status; nothing left allocated)")
 MUTS = ["objadd_key_leak", "attach_leak"]
 
 
@@ -26,6 +28,11 @@ def diag_of(rec, ex):
             cls = "no_documented_failure"
     return {"op": rec.get("e"), "w": rec.get("w"), "v": rec.get("v"), "h": rec.get("h"), "k": rec.get("k"), "site": rec.get("site"), "class": cls,
             "status": rec.get("status"), "leak": rec.get("leak")}
+
+
+def diag_of_p(rec, ex):
+    return {"op": rec.get("e"), "fl": rec.get("fl"), "k": rec.get("k"), "n": rec.get("n"), "hit": rec.get("hit"), "text": rec.get("text", [])[:60],
+            "cuts": rec.get("cuts"), "clean": rec.get("clean", {}).get("st"), "got": rec.get("got", {}).get("st"), "leak": rec.get("leak")}
 
 
 def run(ck):
@@ -50,6 +57,12 @@ def run(ck):
     ck.extra["failing_sites"] = sorted({f["site"] for f in hit})
     vlib.conformance(ck, "V:every-allocation-index-failed", "TraceFaults", "trace.cfg", tp, deaths, diag_of, min_events=500, timeout=1800,
                      split_every=400)
+    # ---- generated documents (valid, mutated, chunked) parsed with each allocation request failing in turn
+    np_ = 1500 if thorough else 120
+    tp2 = os.path.join(ck.dir, "p.ndjson")
+    deaths = vlib.run_executions(exe, lambda st: ["tok", "fault-drive", st, np_], np_, tp2, timeout=1800)
+    vlib.conformance(ck, "V:generated-documents-parsed-with-failing-allocations", "TraceFaults", "trace.cfg", tp2, deaths, diag_of_p, min_events=np_,
+                     timeout=1800, split_every=400)
     ck.samples = [{"w": f["w"], "v": f["v"], "k": f["k"], "site": f["site"], "status": f["status"], "leak": f["leak"]} for f in hit[:3]] + ck.samples[:2]
 
 
